@@ -55,6 +55,7 @@ func main() {
 	c := NewCtx(*prop, *tier, *seed, *driver, scratch, *replayDir)
 	c.KnownPath = *known
 	fn(c)
+	c.Flush()
 	if *evidence != "" {
 		c.WriteEvidence(*evidence)
 	}
